@@ -1,6 +1,6 @@
 SPECIFICATION Spec
 CONSTANTS
   MaxSteps = 7
-  Codes = {200, 404, 500}
+  Codes = {101, 103, 200, 404}
 INVARIANTS CodeOK LastWins
 CHECK_DEADLOCK FALSE
